@@ -600,6 +600,12 @@ class RefRun(object):
             if v is True or (v and not is_racy(v)):
                 st = 'ERROR'
                 o.state_info_class = 'policy'
+        if retry and isinstance(retry.get('count'), list):
+            try:
+                retry = dict(retry, count=self.ev(retry['count'], o))
+            except EvalError:
+                self.structural_error(o, keep_exec=True)
+                return 'structural'
         if retry and retry.get('count', 0) and st in ('SUCCESS', 'ERROR'):
             try:
                 env2 = None
